@@ -55,6 +55,16 @@ func c13ConcGen(r *verifh.Rng) []verifh.Section {
 	return secs
 }
 
+// c13SafeValues: Values(); ok=false if it panicked (e.g. a snapshot that was never stored is loaded).
+func c13SafeValues(sub *Subscriber) (vals []string, ok bool) {
+	defer func() {
+		if recover() != nil {
+			vals, ok = nil, false
+		}
+	}()
+	return sub.Values(), true
+}
+
 func TestVerifC13Conc(t *testing.T) {
 	logx.Disable()
 	secs := verifh.Sections(c13ConcGen)
@@ -63,7 +73,8 @@ func TestVerifC13Conc(t *testing.T) {
 		sub := &Subscriber{items: c}
 		var listenerReads atomic.Int64
 		sub.AddListener(func() {
-			listenerReads.Add(int64(len(sub.Values())))
+			vals, _ := c13SafeValues(sub)
+			listenerReads.Add(int64(len(vals)))
 		})
 		var clock atomic.Int64
 		step := func(op []string) string {
@@ -92,6 +103,7 @@ func TestVerifC13Conc(t *testing.T) {
 				}
 			}
 			var wa, wb []string
+			var panics atomic.Int64
 			reads := make([][]string, readers)
 			wg.Add(2 + readers)
 			start := make(chan struct{})
@@ -113,7 +125,10 @@ func TestVerifC13Conc(t *testing.T) {
 					barrier()
 					for n := 0; n < 4; n++ {
 						s := clock.Add(1)
-						vals := sub.Values()
+						vals, ok := c13SafeValues(sub)
+						if !ok {
+							panics.Add(1)
+						}
 						ids := strings.ReplaceAll(VerifValIDs(vals), ",", ".")
 						if len(vals) != len(strings.Split(ids, ".")) && len(vals) > 0 {
 							ids += ".dup"
@@ -130,8 +145,12 @@ func TestVerifC13Conc(t *testing.T) {
 			for _, rs := range reads {
 				all = append(all, rs...)
 			}
-			return fmt.Sprintf("wa=%s wb=%s reads=%s values=%s races=%d", strings.Join(wa, ","), strings.Join(wb, ","),
-				strings.Join(all, "|"), VerifValIDs(sub.Values()), VerifRaceErrors()-races0)
+			final, ok := c13SafeValues(sub)
+			if !ok {
+				panics.Add(1)
+			}
+			return fmt.Sprintf("wa=%s wb=%s reads=%s values=%s races=%d panics=%d", strings.Join(wa, ","), strings.Join(wb, ","),
+				strings.Join(all, "|"), VerifValIDs(final), VerifRaceErrors()-races0, panics.Load())
 		}
 		return step, nil
 	})
